@@ -28,7 +28,7 @@ Ev == Trace[l]
 TR == Trace[l].st.rlog
 TP == Trace[l].st.pub
 Focus == IF "n" \in DOMAIN Trace[l].args THEN Trace[l].args.n
-         ELSE IF ctl # None THEN ctl ELSE CHOOSE n \in Nodes : \A m \in Nodes : n <= m
+         ELSE IF ctl # None THEN ctl ELSE CHOOSE n \in Nodes : TRUE
 
 NextK == IF Len(rlog) < Len(TR) THEN TR[Len(rlog) + 1].k ELSE "-"
 NextC == IF Len(rlog) < Len(TR) THEN TR[Len(rlog) + 1].c ELSE ""
@@ -75,6 +75,7 @@ Match ==
      THEN /\ up[n]
           /\ Ev.st.parked => disp[n].st = "pub"    \* (the flag is read a moment after the stream)
           /\ Running(n) => lp[n] = Ev.st.lp
+          /\ Ev.a = "Snapshot" => first[n] = Ev.st.first   \* compaction as DoSnapshot says
      ELSE Ev.a = "Crash" => ~up[n]
   /\ TLCSet(2, TLCGet(2) \cup {l})
   /\ l' = l + 1 /\ done' = FALSE
